@@ -29,11 +29,11 @@ def run_block(chk, repo, rid_prefix, q, kind, single_rule=None):
     return fi, ba, items
 
 
-def bounds_rule(chk, repo, rid, fi):
+def bounds_rule(chk, repo, rid, fi, dname='D'):
     # the allocation bound and its assertion
     md = [s for s in ast.walk(fi.node) if isinstance(s, ast.Assign) and norm(s.value) == f'min({fi.params[0]}.shape)']
     asserts = [norm(a.test) for a in ast.walk(fi.node) if isinstance(a, ast.Assert)]
-    ok = len(md) == 1 and any(t == f'D <= {norm(md[0].targets[0])}' for t in asserts)
+    ok = len(md) == 1 and any(t == f'{dname} <= {norm(md[0].targets[0])}' for t in asserts)
     chk.ob(rid, where(repo, fi, md[0] if md else fi.node), f'{fi.name}: intermediate dimension is allocated as min(rows, cols) '
            f'and asserted not to be exceeded', ok, f'asserts: {asserts[-3:]}', key=f'{rid}|{fi.qual}|bound')
     pre = {f'{fi.params[0]}.ndim == 2', f'len({fi.params[1]}) == {fi.params[0]}.shape[0]',
@@ -57,7 +57,7 @@ def run(chk, repo, tier):
                        'factor at a row whose charge is the returned label, second factor zero')
     chk.rule('C11.R5', 'the inputs are never written (effects engine)')
     fi, ba, items = run_block(chk, repo, 'C11', 'bond_ops.qr', 'qr')
-    bounds_rule(chk, repo, 'C11.R2', fi)
+    bounds_rule(chk, repo, 'C11.R2', fi, getattr(ba, 'Dname', 'D'))
     c = ba.counts
     if (c['cond_perm'] < 2 or c['unperm'] < 2 or c['block_store'] < 3 or c['dummy'] < 1) and all(i[2] for i in items):
         raise AnalysisError(f'qr: anchored idioms vanished (counts {c})')
